@@ -136,11 +136,14 @@ impl Backend {
     /// Make the crate's runtime dispatch use this backend. Process-global: callers must not mix
     /// backends across concurrently running threads.
     pub fn force(&self) -> bool {
-        match self {
-            Backend::Native => httparse::_verif::set_runtime_feature(0) || true,
-            Backend::Avx2 => std::is_x86_feature_detected!("avx2") && httparse::_verif::set_runtime_feature(1),
-            Backend::Sse42 => std::is_x86_feature_detected!("sse4.2") && httparse::_verif::set_runtime_feature(2),
-            Backend::Scalar => httparse::_verif::set_runtime_feature(3),
+        // the ids under which the crate caches its backends come from the crate itself (H2b hook)
+        let ids = httparse::_verif::runtime_backend_ids();
+        match (self, ids) {
+            (Backend::Native, _) => httparse::_verif::set_runtime_feature(0) || true,
+            (Backend::Avx2, Some(ids)) => std::is_x86_feature_detected!("avx2") && httparse::_verif::set_runtime_feature(ids[0]),
+            (Backend::Sse42, Some(ids)) => std::is_x86_feature_detected!("sse4.2") && httparse::_verif::set_runtime_feature(ids[1]),
+            (Backend::Scalar, Some(ids)) => httparse::_verif::set_runtime_feature(ids[2]),
+            (_, None) => false,
         }
     }
 }
